@@ -7,6 +7,7 @@ import (
 	"os"
 	"os/exec"
 	"path/filepath"
+	"runtime/pprof"
 	"sort"
 	"strings"
 	"sync"
@@ -100,6 +101,14 @@ func main() {
 	}
 	switch os.Args[1] {
 	case "check":
+		if pf := os.Getenv("SYMGO_CPUPROFILE"); pf != "" {
+			f, _ := os.Create(pf)
+			pprof.StartCPUProfile(f)
+			code := cmdCheck(os.Args[2:])
+			pprof.StopCPUProfile()
+			f.Close()
+			os.Exit(code)
+		}
 		os.Exit(cmdCheck(os.Args[2:]))
 	case "replay":
 		os.Exit(cmdReplay(os.Args[2:]))
@@ -556,6 +565,14 @@ func explore(eng0 *Engine, cfg Config, in instance, selfMax int, smtlog string) 
 					}
 				}
 				queue = append(queue, pr.Pending...)
+				if mw := os.Getenv("SYMGO_MAXWALL"); mw != "" {
+					var secs float64
+					fmt.Sscan(mw, &secs)
+					if time.Since(t0).Seconds() > secs && !stopped {
+						res.inconcl = append(res.inconcl, "wall budget SYMGO_MAXWALL exceeded")
+						stopped = true
+					}
+				}
 				if res.paths+len(queue) > cfg.MaxPaths {
 					res.inconcl = append(res.inconcl, fmt.Sprintf("path budget %d exceeded", cfg.MaxPaths))
 					stopped = true
